@@ -21,6 +21,9 @@ pub struct Case {
     pub removed: Vec<Vec<u8>>,
     /// one create_dir_all target per thread
     pub threads: Vec<Vec<u8>>,
+    /// number of unrelated directories ('/zbulk/d<i>') that exist beforehand: tables of a few
+    /// dozen entries cross growth thresholds during the concurrent phase
+    pub bulk: u8,
 }
 
 const NAMES: [&str; 3] = ["a", "b", "c"];
@@ -51,6 +54,8 @@ fn cfgs() -> BoxedStrategy<Cfg> {
         1 => Just(Cfg::Alt(Box::new(Cfg::Phys), 2)),
         2 => Just(Cfg::Ovl(vec![Cfg::Phys, Cfg::Mem])),
         1 => Just(Cfg::Ovl(vec![Cfg::Mem, Cfg::Phys])),
+        1 => Just(Cfg::Alt(Box::new(Cfg::Alt(Box::new(Cfg::Mem), 1)), 1)),
+        1 => Just(Cfg::Ovl(vec![Cfg::Alt(Box::new(Cfg::Mem), 1), Cfg::Mem])),
     ]
     .boxed()
 }
@@ -66,8 +71,8 @@ fn target_comps() -> impl Strategy<Value = Vec<u8>> {
 }
 
 fn strategy() -> impl Strategy<Value = Case> {
-    (cfgs(), proptest::collection::vec(comps(), 0..=2), proptest::collection::vec(comps(), 0..=2), proptest::collection::vec(comps(), 0..=2), proptest::collection::vec(target_comps(), 2..=4))
-        .prop_map(|(cfg, pre, lower, removed, threads)| Case { cfg, pre, lower, removed, threads })
+    (cfgs(), proptest::collection::vec(comps(), 0..=2), proptest::collection::vec(comps(), 0..=2), proptest::collection::vec(comps(), 0..=2), proptest::collection::vec(target_comps(), 2..=4), prop_oneof![3 => Just(0u8), 1 => 36u8..=62, 1 => 100u8..=118])
+        .prop_map(|(cfg, pre, lower, removed, threads, bulk)| Case { cfg, pre, lower, removed, threads, bulk })
 }
 
 fn setup(case: &Case) -> Result<Built, String> {
@@ -79,6 +84,9 @@ fn setup(case: &Case) -> Result<Built, String> {
         }
     }
     let built = build(&case.cfg, &prepop)?;
+    for i in 0..case.bulk {
+        at(&built.root, &format!("/zbulk/d{}", i)).map_err(|e| e.to_string())?.create_dir_all().map_err(|e| format!("setup bulk: {}", e))?;
+    }
     for p in &case.pre {
         at(&built.root, &path_of(p)).map_err(|e| e.to_string())?.create_dir_all().map_err(|e| format!("setup create_dir_all('{}'): {}", path_of(p), e))?;
     }
@@ -206,12 +214,12 @@ fn stress_round(case: &Case) -> Result<(), String> {
 }
 
 fn case_to_json(c: &Case) -> Value {
-    json!({"cfg": c.cfg.to_json(), "pre": c.pre, "lower": c.lower, "removed": c.removed, "threads": c.threads})
+    json!({"cfg": c.cfg.to_json(), "pre": c.pre, "lower": c.lower, "removed": c.removed, "threads": c.threads, "bulk": c.bulk})
 }
 
 fn case_from_json(v: &Value) -> Option<Case> {
     let vv = |k: &str| -> Option<Vec<Vec<u8>>> { Some(v.get(k)?.as_array()?.iter().map(|a| a.as_array().map(|x| x.iter().filter_map(|y| y.as_u64().map(|z| z as u8)).collect()).unwrap_or_default()).collect()) };
-    Some(Case { cfg: Cfg::from_json(v.get("cfg")?)?, pre: vv("pre")?, lower: vv("lower")?, removed: vv("removed")?, threads: vv("threads")? })
+    Some(Case { cfg: Cfg::from_json(v.get("cfg")?)?, pre: vv("pre")?, lower: vv("lower")?, removed: vv("removed")?, threads: vv("threads")?, bulk: v.get("bulk").and_then(|x| x.as_u64()).unwrap_or(0) as u8 })
 }
 
 pub fn replay(v: &Value) -> CaseResult {
@@ -231,7 +239,7 @@ pub fn replay(v: &Value) -> CaseResult {
     }
 }
 
-const RULE: &str = "2..4 threads, each one create_dir_all on a path of depth 1..4 (one target in seven: depth 5..7) over the names {a (62%), b, c} so that prefixes of every length are shared (identical, nested, sibling, disjoint targets); optional pre-existing directories, directories in the lower overlay layer, and directories created-and-removed before the concurrent phase (overlay deletion markers); stacks Mem, altroot(Mem), overlay[Mem,Mem(,Mem)], overlay on sub-paths, altroot(overlay), Phys, altroot(Phys), overlay with a Phys layer; schedules: decision at every MemoryFS lock acquisition and at PhysicalFS::create_dir, enumerated depth-first with iterative preemption bounding up to the cap (exhaustive when the tree fits), then random schedules; PLUS barrier-released truly parallel rounds (4..8 OS threads, no scheduler) on every stack, which reach contention-dependent behaviour the cooperative scheduler cannot; oracle: every call returns Ok and afterwards every requested path and each ancestor is a directory; non-trivial = >=2 threads whose targets share a non-empty prefix that does not exist beforehand, explored with >=1 preemption; evaluations = scheduled executions";
+const RULE: &str = "2..4 threads, each one create_dir_all on a path of depth 1..4 (one target in seven: depth 5..7) over the names {a (62%), b, c} so that prefixes of every length are shared (identical, nested, sibling, disjoint targets); optional pre-existing directories (in two cases of five also 36..118 unrelated ones, so that tables cross growth thresholds), directories in the lower overlay layer, and directories created-and-removed before the concurrent phase (overlay deletion markers); stacks Mem, altroot(Mem), overlay[Mem,Mem(,Mem)], overlay on sub-paths, altroot(overlay), altroot(altroot(Mem)), overlay with an altroot as upper layer, Phys, altroot(Phys), overlay with a Phys layer; schedules: decision at every MemoryFS lock acquisition and at PhysicalFS::create_dir, enumerated depth-first with iterative preemption bounding up to the cap (exhaustive when the tree fits), then random schedules; PLUS barrier-released truly parallel rounds (4..8 OS threads, no scheduler) on every stack, which reach contention-dependent behaviour the cooperative scheduler cannot; oracle: every call returns Ok and afterwards every requested path and each ancestor is a directory; non-trivial = >=2 threads whose targets share a non-empty prefix that does not exist beforehand, explored with >=1 preemption; evaluations = scheduled executions";
 
 pub fn run(ctx: &RunCtx) -> i32 {
     // a single case explores thousands of schedules: keep shrinking short
